@@ -61,6 +61,7 @@ def optimizer_cases(tr):
             out.append(("a knob moved by 1.5 x max_step between two Jacobian rows", t, "C10.step-bounded-by-max_step"))
             t = copy.deepcopy(tr)
             t["events"][i]["rows"][jac[0]]["inlim"] = []
+            t["events"][i]["start_inlim"] = True
             out.append(("an accepted point outside the limits", t, "C10.accepted-points-within-limits"))
             t = copy.deepcopy(tr)
             t["events"][i]["rows"][jac[0]]["penok"] = False
